@@ -24,10 +24,10 @@ def generate(tier, seed):
     cases = []
     for name in sources.MULTICONF + ["4DFR.pdb", "1HPX.pdb"]:
         cases.append({"kind": "file", "file": name, "seed": "%d:%s" % (seed, name), "cost": 5 if name.startswith("conf") else 300})
-    n = 500 if tier == "quick" else 5000
+    n = 500 if tier == "quick" else 25000
     for k in range(n):
         cases.append({"kind": "built", "seed": "%d:b:%d" % (seed, k), "cost": 30})
-    n = 25 if tier == "quick" else 500
+    n = 25 if tier == "quick" else 2500
     for k in range(n):
         cases.append({"kind": "single", "seed": "%d:s:%d" % (seed, k), "cost": 12})
     return cases
